@@ -412,11 +412,18 @@ def build():
                        "token_pattern": [lambda: r"(?u)\\b\\w+\\b"], "decode_error": [lambda: "ignore"],
                        "input": [lambda: "content"], "encoding": [lambda: "latin-1"],
                        "dtype": [lambda: numpy.float64]}))
+    def _ensemble(name, **kw):
+        import sklearn.ensemble
+        return getattr(sklearn.ensemble, name)(**kw)
+
     add(Spec("SkBaseTransformLearner",
              [lambda: sk.SkBaseTransformLearner(LinearRegression()),
               lambda: sk.SkBaseTransformLearner(LogisticRegression(C=0.7), "predict_proba"),
               lambda: sk.SkBaseTransformLearner(DecisionTreeClassifier(max_depth=2), "predict", extra=3),
-              lambda: sk.SkBaseTransformLearner(LogisticRegression(), "predict", copy=False, update=2)],
+              lambda: sk.SkBaseTransformLearner(LogisticRegression(), "predict", copy=False, update=2),
+              # an ensemble: while it is not fitted, len() / bool() of it raise (its __len__ reads estimators_)
+              lambda: sk.SkBaseTransformLearner(_ensemble("RandomForestRegressor", n_estimators=3, random_state=0),
+                                                "predict")],
              clf_data, clf3, methods=["transform"], rowwise=["transform"], fit_in_place=True,
              alts={"model": [lambda est: (LogisticRegression(C=5.0) if est is None or est.method != "predict"
                                           or hasattr(est.model, "predict_proba") else Ridge(alpha=3.0))],
@@ -427,7 +434,9 @@ def build():
               lambda: sk.SkBaseTransformStacking([LogisticRegression(), DecisionTreeClassifier(max_depth=2)],
                                                  "predict_proba"),
               lambda: sk.SkBaseTransformStacking([Ridge(alpha=float(i + 1)) for i in range(12)], "predict"),
-              lambda: sk.SkBaseTransformStacking([LinearRegression()], extra="a")],
+              lambda: sk.SkBaseTransformStacking([LinearRegression()], extra="a"),
+              lambda: sk.SkBaseTransformStacking([_ensemble("ExtraTreesRegressor", n_estimators=2, random_state=0),
+                                                  LinearRegression()], "predict")],
              clf_data, clf3, methods=["transform"], rowwise=["transform"], fit_in_place=True,
              alts={"method": [lambda: "predict"],
                    "models": [lambda: [sk.SkBaseTransformLearner(Ridge(alpha=0.5), "predict"),
@@ -440,7 +449,10 @@ def build():
         add(Spec(nm, [lambda cls=cls: cls(alpha=1, name="n"), lambda cls=cls: cls(alpha=2.5, flag=True, name="m"),
                       lambda cls=cls: cls(),
                       # free-form keyword names that are also method names of containers (copy, items, get, update)
-                      lambda cls=cls: cls(copy=True, items=3, get="g", update=0.5)], reg_data, abstract=True,
+                      lambda cls=cls: cls(copy=True, items=3, get="g", update=0.5),
+                      # keyword values that are objects the caller keeps a reference to
+                      lambda cls=cls: cls(alpha=1, cols=["a", "b"], inner=Ridge(alpha=2.0), grid={"k": [1, 2]},
+                                          center=numpy.arange(3.0))], reg_data, abstract=True,
                  alts={"name": [lambda: "zz"]}))
     add(Spec("BaseTimeSeries", [lambda: BaseTimeSeries(), lambda: BaseTimeSeries(past=3, delay2=4),
                                 lambda: BaseTimeSeries(preprocessing=TimeSeriesDifference(1))], ts_data, abstract=True,
